@@ -71,3 +71,14 @@ package config
 //@ func ParseFunctionOrString
 //@   dyncalls noeffect
 //@   ensures result1 != nil ==> result0 == nil
+
+// C17 (sections keep their written order): a section name that occurs twice in one file is merged with the
+// earlier block's items first and the later block's items after them.
+//@ func (*Merger).convertSectionsToMap
+//@   anchorsonly
+//@   nonilcheck
+//@   dyncalls noeffect
+//@   modifies *
+//@   at call mergeItems#1 assert a1 == items && a2 == sec.Items && ok
+//@   loop 1
+//@     exit $idx == len(sections)
